@@ -327,6 +327,20 @@ pub fn run(ctx: &Ctx) -> i32 {
             texts.push(format!("-printf '%{d}\\n'"));
             texts.push(format!("-name a -fprintf f '%{d}'"));
         }
+        // directives that do not exist are not constructs to be compiled into something else
+        for f in ["%q", "%5s", "%#m", "%{no-such}", "100%", "%", "%-p", "%e", "%j"] {
+            for text in [format!("-printf '{f}'"), format!("-name a -fprintf f 'x{f}\\n'")] {
+                if let (Spec::Reject(_), crate::subject::P::Ok(o, e)) = (speclib::textspec::parse(&text), crate::subject::parse_real(&text)) {
+                    if let C::Ok(_) = compile_render(&e, &o, "/dev") {
+                        acc.violate(Violation::new(
+                            "C12:invalid-directive-compiled:from-text",
+                            format!("{text:?} holds a directive the format language does not have, yet it parses to {} and compiles", conv::expr(&e).show()),
+                            json!({"kind": "text-invalid", "input": text}),
+                        ));
+                    }
+                }
+            }
+        }
         // the \\c escape (stop printing here): refused, or compiled with that meaning — never
         // compiled into something else (a backslash and a letter)
         let clear_texts = ["-printf 'a\\cb'", "-printf '%p\\c'", "-name x -fprintf f '%p\\c tail\\n'", "-printf '\\c'"];
@@ -351,6 +365,24 @@ pub fn run(ctx: &Ctx) -> i32 {
             t.states += 1;
             t.transitions += 1;
             if bad.is_empty() {
+                // every construct is expressible: the text must parse and compile
+                if tree.has_action() || true {
+                    match crate::subject::parse_real(text) {
+                        crate::subject::P::Ok(o, e) => {
+                            if let C::Err(err) = compile_render(&e, &o, "/dev") {
+                                if !has_clear(&tree) {
+                                    t.violate(Violation::new("C12:supported-expression-refused:from-text", format!("{text:?} ({}) is refused by compile: {err}", tree.show()), json!({"kind": "text", "input": text})));
+                                }
+                            }
+                        }
+                        crate::subject::P::Err(err) => {
+                            if !matches!(speclib::textspec::parse(text), Spec::Accept { may_reject: true, .. }) {
+                                t.violate(Violation::new("C12:supported-expression-refused:from-text", format!("{text:?} ({}) is refused by the parser: {err}", tree.show()), json!({"kind": "text", "input": text})));
+                            }
+                        }
+                        crate::subject::P::Panic(_) => {}
+                    }
+                }
                 continue;
             }
             if let crate::subject::P::Ok(o, e) = crate::subject::parse_real(text) {
